@@ -202,6 +202,7 @@ type Step struct {
 	KN   []string // key leaf names
 	List bool
 	Pos  string // schema position up to and including Name
+	Wild []int  // indices of the keys that are wildcards (queries only)
 }
 
 // Resolve walks an abstract path (names and key atoms) and concretises the keys.
@@ -226,6 +227,12 @@ func (x *Ctx) Resolve(ap []string) ([]Step, error) {
 					return nil, fmt.Errorf("key atom %q for list %s", ap[i], pos)
 				}
 				for j, a := range parts {
+					if a == "*" {
+						// a wildcard key (queries): no concretisation
+						st.Keys = append(st.Keys, "str:*")
+						st.Wild = append(st.Wild, j)
+						continue
+					}
 					c, err := x.Value(pos+"/"+kn[j], a)
 					if err != nil {
 						return nil, err
